@@ -619,11 +619,14 @@ def _execute_history(sc):
                 live[j][1] = m_remove_definitions(m)
             elif op == "df_expand":
                 probe("df_expand")
-                s = W["pd"].Series([str(L)])
+                # a column of several rows, the same text more than once, under non-default row labels
+                s = W["pd"].Series([str(L), _NS + "Green", str(L), str(L)], index=[3, 0, 7, 5])
                 W["df_util"].expand_defs(s, schema, dd)
-                if _lib_canon(s[0]) != m_canon(m_expand(m, defs)):
-                    viol("tree-equals-model", "df_util.expand_defs(%r) gives %r, reference %r"
-                         % (str(L), s[0], render_top(m_expand(m, defs))), "df-expand-differs")
+                for lab in (3, 7, 5):
+                    if _lib_canon(s[lab]) != m_canon(m_expand(m, defs)):
+                        viol("tree-equals-model", "df_util.expand_defs: row %d of [text, Green, text, text] with text %r gives %r, "
+                             "reference %r" % (lab, str(L), s[lab], render_top(m_expand(m, defs))), "df-expand-differs")
+                        break
             elif op == "df_shrink":
                 probe("df_shrink")
                 s = W["pd"].Series([str(L)])
